@@ -137,3 +137,50 @@ Example mm_eq_nonvacuous :
   mm_eq [(1%Z, []); (2%Z, [5%Z; 6%Z]); (3%Z, [7%Z])] [(3%Z, [7%Z]); (4%Z, []); (2%Z, [6%Z; 5%Z])] = true /\
   mm_eq [(2%Z, [5%Z; 6%Z])] [(2%Z, [5%Z; 5%Z])] = false.
 Proof. vm_compute. auto. Qed.
+
+(* ---- the nested HashMultiMap operations the wrapper forwards to (executable; tied by correspondence) ---- *)
+Fixpoint mm_insert (k v : Z) (s : mmstate) : mmstate :=
+  match s with
+  | [] => [(k, [v])]
+  | kv :: t => if (fst kv =? k)%Z then (k, snd kv ++ [v]) :: t else kv :: mm_insert k v t
+  end.
+Definition mm_erase_key (k : Z) (s : mmstate) : mmstate := filter (fun kv => negb (fst kv =? k)%Z) s.   (* RemoveKey *)
+(* erase_if with a predicate on the key: Remove(iter) on every matching pair KEEPS the then value-less key *)
+Definition mm_erase_if (p : Z -> bool) (s : mmstate) : mmstate := map (fun kv => if p (fst kv) then (fst kv, []) else kv) s.
+Fixpoint zremove1 (v : Z) (l : list Z) : list Z :=
+  match l with [] => [] | w :: t => if (w =? v)%Z then t else w :: zremove1 v t end.
+(* unordered_multimap::erase(iterator): GetCount() == 1 -> RemoveKey, else Remove(iter) *)
+Definition mm_erase_pair (k v : Z) (s : mmstate) : mmstate :=
+  flat_map (fun kv => if (fst kv =? k)%Z
+                      then (if existsb (Z.eqb v) (snd kv)
+                            then (if length (snd kv) =? 1 then [] else [(k, zremove1 v (snd kv))])
+                            else [kv])
+                      else [kv]) s.
+
+Lemma mm_insert_pairs k v s : Permutation (mm_pairs (mm_insert k v s)) ((k, v) :: mm_pairs s).
+Proof.
+  induction s as [|[k0 vs] t IH]; simpl; auto.
+  destruct (Z.eqb_spec k0 k).
+  - subst. simpl. unfold kv_pairs at 1. simpl. rewrite map_app. simpl.
+    rewrite <- app_assoc. simpl. apply Permutation_sym. apply Permutation_middle.
+  - simpl. eapply perm_trans; [apply Permutation_app_head, IH|]. apply Permutation_sym, Permutation_middle.
+Qed.
+Lemma mm_insert_keys_nodup k v s : NoDup (map fst s) -> NoDup (map fst (mm_insert k v s)).
+Proof.
+  induction s as [|[k0 vs] t IH]; simpl; intros ND.
+  - constructor; auto.
+  - inversion ND as [|? ? Hn Hd]; subst. destruct (Z.eqb_spec k0 k); simpl.
+    + subst. constructor; auto.
+    + constructor; auto. intros I. apply Hn. clear - I n.
+      induction t as [|[k1 ws] u IHu]; simpl in *; [destruct I; [congruence|tauto]|].
+      destruct (Z.eqb_spec k1 k); simpl in *; [subst; destruct I; auto|destruct I; auto].
+Qed.
+Lemma mm_erase_if_pairs p s : mm_pairs (mm_erase_if p s) = filter (fun e => negb (p (fst e))) (mm_pairs s).
+Proof.
+  induction s as [|[k0 vs] t IH]; simpl; auto. rewrite filter_app, IH. f_equal.
+  destruct (p k0) eqn:E; unfold kv_pairs; simpl.
+  - induction vs; simpl; auto. rewrite E. simpl. auto.
+  - induction vs; simpl; auto. rewrite E. simpl. f_equal; auto.
+Qed.
+Lemma mm_erase_if_keys p s : map fst (mm_erase_if p s) = map fst s.
+Proof. induction s as [|[k0 vs] t IH]; simpl; auto. rewrite IH. destruct (p k0); reflexivity. Qed.
